@@ -285,3 +285,39 @@ def gen_env_shared_sizer(rnd):
         if rnd.random() < 0.3:
             ms.append(M("plain", I(rnd.choice([1, 2, 8]))))
     return [elem, S.StructDef(ms)]
+
+
+def gen_env_blocks(rnd):
+    """One struct made of BLOCKS: a (possibly empty) fixed prefix, a dynamic
+    field, then a block of two or three fixed members of mixed kinds and
+    alignments (optionals, scalars, fixed and limited arrays), optionally a
+    second dynamic field and block.  The partial-padding rules of the format
+    (block alignment = the most aligned member of the block, wherever it
+    sits) are what this family concentrates on."""
+    I, M = S.Int, S.Mem
+    widths = [1, 2, 4, 8]
+
+    def fixed_member():
+        r = rnd.random()
+        w = rnd.choice(widths)
+        if r < 0.35:
+            return M("opt", I(w))
+        if r < 0.65:
+            return M("plain", I(w))
+        if r < 0.8:
+            return M("fixed", rnd.choice([I(w), S.BYTE]), rnd.randint(1, 3))
+        return M("lim", rnd.choice([I(w), S.BYTE]), rnd.randint(1, 3))
+
+    ms = []
+    if rnd.random() < 0.6:
+        ms.append(M("plain", I(rnd.choice(widths))))
+    for _ in range(rnd.randint(1, 2)):
+        # the dynamic field that closes the previous block
+        if rnd.random() < 0.25 and any(m["f"] == "plain" and m["t"]["k"] == "int" for m in ms):
+            sizers = [q for q, m in enumerate(ms, 1) if m["f"] == "plain" and m["t"]["k"] == "int"]
+            ms.append(M("ext", rnd.choice([I(1), I(2), I(4), S.BYTE]), 0, rnd.choice(sizers)))
+        else:
+            ms.append(M("dyn", rnd.choice([I(1), I(2), I(4), I(8), S.BYTE])))
+        for _ in range(rnd.randint(2, 3)):
+            ms.append(fixed_member())
+    return [S.StructDef(ms)]
